@@ -125,6 +125,10 @@ def run(ctx):
                 evals += 1
                 before, _ = parse_dump(dump_before.split()); after, _ = parse_dump(dump_after.split())
                 nd = before["ndim"]
+                # the inputs satisfy the hypotheses of the theorems (PTable.WF): row-major strides, prod(naxes) coefficients
+                if kind != "Q" and (nd < 1 or before["strides"] != row_major(before["naxes"]) or len(before["coef"]) != (before["strides"][0] * before["naxes"][0])):
+                    ctx.tie_ok = False
+                    if len(ctx.broken) < 5: ctx.broken.append({"kind": "generated table is not well-formed (harness bug)", "line": n})
                 is_perm = sorted(arg) == list(range(nd))
                 accepted = outcome in ("none", "rc0")
                 rep = {"line": n, "mode": mode, "entry": {"P": "permuteDimensions", "Q": "permuteDimensions (inverse)", "C": "splinetable_permute"}[kind],
